@@ -240,7 +240,7 @@ def register_asts(obj):
             register_asts(x)
 
 
-def to_py(v, opaque=None, dict_cls=dict):
+def to_py(v, opaque=None, dict_cls=dict, list_cls=list, set_cls=set):
     """pv -> real Python object. `opaque` maps obj index -> object (shared identity)."""
     from pypyr.dsl import PyString, SicString, Jsonify
     if opaque is None:
@@ -260,11 +260,11 @@ def to_py(v, opaque=None, dict_cls=dict):
         if 'b' in v:
             return v['b'].encode('latin-1')
         if 'l' in v:
-            return [go(x) for x in v['l']]
+            return list_cls(go(x) for x in v['l'])
         if 't' in v:
             return tuple(go(x) for x in v['t'])
         if 's' in v:
-            return set(go(x) for x in v['s'])
+            return set_cls(go(x) for x in v['s'])
         if 'd' in v:
             return dict_cls((go(k), go(x)) for k, x in v['d'])
         if 'py' in v:
@@ -308,8 +308,14 @@ class Canon:
     def __call__(self, o):
         from pypyr.dsl import PyString, SicString, Jsonify
         from collections.abc import Mapping
-        if o is None or isinstance(o, (bool, int, str)):
+        if o is None or type(o) in (bool, int, str):
             return o
+        if isinstance(o, bool):
+            return bool(o)
+        if isinstance(o, int):
+            return int(o)          # ruamel ScalarInt and friends: the subclass is not observed
+        if isinstance(o, str):
+            return str(o)
         if isinstance(o, float):
             fr = Fraction(o)
             return {'f': [fr.numerator, fr.denominator]}
